@@ -84,6 +84,10 @@ class Runtime:
         self.probes = []
         self.cur_exc = []
         self.notes = []
+        self.writes = []  # every Logger.write call: (canonical dict before the call, has serializer)
+        self.uuids = set()
+        self.checks = []  # model-free property checks that failed: (property tag, what)
+        self.nchecks = {}
 
     def var(self, x):
         if x not in self.vars:
@@ -94,6 +98,11 @@ class Runtime:
         if y not in self.ids:
             raise Stuck()
         return self.ids.pop(y)
+
+    def check(self, tag, ok, what):
+        self.nchecks[tag] = self.nchecks.get(tag, 0) + 1
+        if not ok:
+            self.checks.append((tag, what))
 
     # exceptions -----------------------------------------------------------------------
     def make_exc(self, i):
@@ -255,6 +264,23 @@ def run_case(case):
     _action.time = Clock()
     uu = itertools.count()
     _action.uuid4 = lambda: "uuid-%d" % next(uu)
+    orig_write = _output.Logger.write
+
+    def write(self, dictionary, serializer=None):
+        import copy
+
+        try:
+            snap = copy.deepcopy(dictionary)
+        except Exception:  # noqa
+            snap = None
+        rt.writes.append((rt.canon_msg(dictionary), serializer is not None))
+        try:
+            return orig_write(self, dictionary, serializer)
+        finally:
+            if snap is not None:
+                rt.check("caller-dict", dictionary == snap, "Logger.write modified the dictionary it was given")
+
+    _output.Logger.write = write
     for spec in case["env"]["extractors"]:
         eliot.register_exception_extractor(rt.classes[spec["cls"]], rt.extractor(spec))
     result = {}
@@ -278,6 +304,7 @@ def run_case(case):
         _errors._error_extraction.registry.clear()
         _errors._error_extraction.registry.update(saved_reg)
         _action.time, _action.uuid4 = saved_time, saved_uuid
+        _output.Logger.write = orig_write
     buf = 0
     result.update(offered=rt.offered, accepted=rt.accepted, probes=rt.probes)
     return result, rt
@@ -305,6 +332,54 @@ def api(rt, name, f, *a, **kw):
 
 
 def make_action(rt, task, spec):
+    a = _make_action(rt, task, spec)
+    return a
+
+
+def placement_check(rt, parent, n0, what, task=False):
+    """The first dict written since `n0` is the message of the call just made: it must sit in
+    `parent` (next level below it, same uuid) or, with no parent / for a task, start a new tree."""
+    if len(rt.writes) <= n0:
+        rt.check("placement", False, "%s wrote nothing" % what)
+        return
+    m = rt.writes[n0][0]
+    u, lvl = m.get("task_uuid"), m.get("task_level")
+    key = canon_key(u)
+    if parent is None or task:
+        rt.check("placement", isinstance(lvl, list) and lvl == [1] and key not in rt.uuids,
+                 "%s with no current action (or start_task) did not start a new tree: uuid %s level %s" % (what, u, lvl))
+    else:
+        pu, pl = parent
+        rt.check("placement", key == canon_key(pu) and isinstance(lvl, list) and len(lvl) >= len(pl) + 1 and lvl[:len(pl)] == pl,
+                 "%s inside action %s%s was placed at uuid %s level %s" % (what, pu, pl, u, lvl))
+    rt.uuids.add(key)
+
+
+def canon_key(u):
+    return repr(u)
+
+
+def parent_of():
+    from eliot import _action
+
+    a = _action.current_action()
+    if a is None:
+        return None
+    t = ctx_tag(a)
+    return ({"uuid": t[0]} if isinstance(t, list) else t, t[1] if isinstance(t, list) else [])
+
+
+def _make_action(rt, task, spec):
+    import eliot
+
+    parent = parent_of()
+    n0 = len(rt.writes)
+    a = _make_action2(rt, task, spec)
+    placement_check(rt, parent, n0, "start_task" if task else "start_action", task)
+    return a
+
+
+def _make_action2(rt, task, spec):
     import eliot
 
     kw = rt.kwargs(spec["fields"])
@@ -320,6 +395,18 @@ def make_action(rt, task, spec):
 
 
 def log_with(rt, target, ms):
+    if target is None:
+        parent = parent_of()
+    else:
+        t = ctx_tag(target)
+        parent = ({"uuid": t[0]}, t[1])
+    n0 = len(rt.writes)
+    r = _log_with(rt, target, ms)
+    placement_check(rt, parent, n0, "log_message")
+    return r
+
+
+def _log_with(rt, target, ms):
     import eliot
 
     kw = rt.kwargs(ms["fields"])
@@ -336,7 +423,11 @@ def log_with(rt, target, ms):
 
 def with_block(rt, action, body):
     """`with action: body`, spelled out so that the protocol itself can be observed."""
+    from eliot import _action
+
+    before = _action.current_action()
     api(rt, "Action.__enter__", action.__enter__)
+    rt.check("ctx", _action.current_action() is action, "inside `with action:` current_action() is not that action")
     exc = None
     try:
         exec_block(rt, body)
@@ -348,6 +439,7 @@ def with_block(rt, action, body):
         r = api(rt, "Action.__exit__", action.__exit__, None, None, None)
     else:
         r = api(rt, "Action.__exit__", action.__exit__, type(exc), exc, exc.__traceback__)
+    rt.check("ctx", _action.current_action() is before, "after `with action:` current_action() is not what it was before entry (exit by %s)" % ("exception" if exc is not None else "return"))
     if r:
         rt.api.append(("Action.__exit__", "swallowed"))
         rt.notes.append("__exit__ returned a truthy value: the exception would be swallowed")
@@ -394,19 +486,28 @@ def exec_stmt(rt, s):
     elif op == "inContext":
         a = rt.var(s["x"])
         cm = api(rt, "Action.context", a.context)
-        with cm:
-            exec_block(rt, s["body"])
+        before = _action.current_action()
+        try:
+            with cm:
+                rt.check("ctx", _action.current_action() is a, "inside `with action.context():` current_action() is not that action")
+                exec_block(rt, s["body"])
+        finally:
+            rt.check("ctx", _action.current_action() is before, "after `with action.context():` current_action() is not what it was before entry")
     elif op == "runIn":
         a = rt.var(s["x"])
         marker = object()
 
         def f():
+            rt.check("ctx", _action.current_action() is a, "inside `action.run(f)` current_action() is not that action")
             exec_block(rt, s["body"])
             return marker
 
-        r = a.run(f)
-        if r is not marker:
-            rt.notes.append("Action.run did not return the function's return value")
+        before = _action.current_action()
+        try:
+            r = a.run(f)
+        finally:
+            rt.check("ctx", _action.current_action() is before, "after `action.run(f)` current_action() is not what it was before the call")
+        rt.check("ret", r is marker, "Action.run did not return the function's return value")
     elif op == "finish":
         a = rt.var(s["x"])
         if s.get("exc") is None:
